@@ -346,6 +346,17 @@ func runCrash(ctx *core.RunCtx) {
 			desc[1] = fmt.Sprintf("%q", args[1].AsString())
 			nargs = 0
 		}
+		if strings.Contains(fn.path, "utf8") && g.Chance(1, 2) {
+			// code points around every encoding-length boundary
+			cps := []int64{0, 0x7F, 0x80, 0x7FF, 0x800, 0xD800, 0xFFFF, 0x10000, 0x10FFFF, 0x110000, 0x1FFFFF, 0x200000, 0x3FFFFFF, 0x4000000, 0x7FFFFFFF, 0x80000000, -1}
+			args, desc = nil, nil
+			for i := 0; i < 1+g.Choose(4); i++ {
+				cp := cps[g.Choose(len(cps))]
+				args = append(args, rt.IntValue(cp))
+				desc = append(desc, fmt.Sprintf("0x%X", cp))
+			}
+			nargs = 0
+		}
 		for i := 0; i < nargs; i++ {
 			v, d := edgeValue(g, h, sp.Values)
 			args = append(args, v)
